@@ -35,6 +35,11 @@ ObsOK(r, R, sch) ==
     /\ DOMAIN Got(r) = DOMAIN R /\ \A id \in DOMAIN R : Got(r)[id] = R[id]
     /\ ~IsThrow(r.obs.all) /\ ToSet(r.obs.all.v) = DOMAIN R /\ Len(r.obs.all.v) = Cardinality(DOMAIN R)
     /\ \A x \in ToSet(r.obs.rows) : ColGetOK(sch, x)
+    \* the same rows through the high-level API (tracks(), snapshot() of every handle): every stored row is listed, a
+    \* getter completes or throws a std::exception (NoWrite above covers these reads as well)
+    /\ (Has(r.obs, "hl") =>
+          /\ ~IsThrow(r.obs.hl.ids) /\ ToSet(r.obs.hl.ids.v) = DOMAIN R /\ Len(r.obs.hl.ids.v) = Cardinality(DOMAIN R)
+          /\ \A x \in ToSet(r.obs.hl.tk) : x.id \in DOMAIN R /\ (IsThrow(x.snap) => x.snap.std))
 
 Unchanged(r) == Got(r) = rows
 
